@@ -196,7 +196,13 @@ fn check_pair(dir: &Path, tag: u64, user: &str, pass: &str, form: &str, two_clie
 // ------------------------------------------------------------------------------------------------
 
 fn bins() -> Option<(PathBuf, PathBuf)> {
-    let d = verif_root().join("target").join("repo-bins").join("debug");
+    // next to the harness's own build output (<target>/release/ttv -> <target>/repo-bins/debug)
+    let d = std::env::current_exe()
+        .ok()
+        .and_then(|p| p.parent().and_then(|p| p.parent()).map(|p| p.to_path_buf()))
+        .unwrap_or_else(|| verif_root().join("target"))
+        .join("repo-bins")
+        .join("debug");
     let w = d.join("setup_wizard");
     let e = d.join("trusttunnel_endpoint");
     (w.exists() && e.exists()).then_some((w, e))
@@ -250,7 +256,10 @@ fn wizard_roundtrip(dir: &Path, tag: u64, user: &str, pass: &str) -> Result<Cow<
 
 const LISTEN: [&str; 4] = ["127.0.0.1:4443", "[::1]:4443", "0.0.0.0:443", "10.0.0.1:443"];
 const RPROXY: [&str; 5] = ["absent", "valid", "port-0", "mask-without-slash", "empty-mask"];
-const HOSTS: [&str; 6] = ["ok", "duplicate-across-classes", "duplicate-in-class", "missing-cert", "bad-key", "no-main-host"];
+const HOSTS: [&str; 11] = [
+    "ok", "duplicate-across-classes", "duplicate-in-class", "missing-cert", "bad-key", "no-main-host",
+    "dup:main+speedtest", "dup:main+rproxy", "dup:ping+speedtest", "dup:ping+rproxy", "dup:speedtest+rproxy",
+];
 
 fn startup_case(dir: &Path, i: u64) -> Result<Cow<'static, str>, Violation> {
     let mut k = i;
@@ -264,7 +273,7 @@ fn startup_case(dir: &Path, i: u64) -> Result<Cow<'static, str>, Violation> {
     k /= 8;
     let rp = RPROXY[(k % 5) as usize];
     k /= 5;
-    let hosts = HOSTS[(k % 6) as usize];
+    let hosts = HOSTS[(k % 11) as usize];
     let case = json!({"kind":"startup","i":i,"via_toml":via_toml,"listen":listen,"creds":creds,"protocols":protos,"reverse_proxy":rp,"hosts":hosts});
     let loopback = listen.starts_with("127.") || listen.starts_with("[::1]");
     let must_refuse = (!creds && !loopback) || protos == 0 || hosts != "ok" || !matches!(rp, "absent" | "valid");
@@ -301,7 +310,13 @@ fn startup_case(dir: &Path, i: u64) -> Result<Cow<'static, str>, Violation> {
             "duplicate-in-class" => format!("[[main_hosts]]\n{}[[main_hosts]]\n{}", host("m.t", "m.t"), host("m.t", "n.t")),
             "missing-cert" => format!("[[main_hosts]]\nhostname = \"m.t\"\ncert_chain_path = \"/nonexistent/cert.pem\"\nprivate_key_path = \"{}\"\n", rt::key_path("m.t")),
             "bad-key" => format!("[[main_hosts]]\nhostname = \"m.t\"\ncert_chain_path = \"{}\"\nprivate_key_path = \"{}\"\n", rt::cert_path("m.t"), rt::fixtures().join("certs").join("bad.key").display()),
-            _ => "main_hosts = []\n".to_string(),
+            "no-main-host" => "main_hosts = []\n".to_string(),
+            dup => {
+                // one name (q.t) in two classes, next to a valid main host
+                let (a, b) = dup.trim_start_matches("dup:").split_once('+').unwrap();
+                let class = |c: &str| match c { "main" => "main_hosts", "ping" => "ping_hosts", "speedtest" => "speedtest_hosts", _ => "reverse_proxy_hosts" };
+                format!("[[main_hosts]]\n{}[[{}]]\n{}[[{}]]\n{}", host("m.t", "m.t"), class(a), host("q.t", "q.t"), class(b), host("q.t", "n.t"))
+            }
         };
         let r = super::guarded(|| -> Result<(), String> {
             let settings: Settings = toml::from_str(&s).map_err(|e| format!("settings: {e}"))?;
@@ -345,7 +360,21 @@ fn startup_case(dir: &Path, i: u64) -> Result<Cow<'static, str>, Violation> {
                 "duplicate-in-class" => hb.main_hosts(vec![hi("m.t", "m.t"), hi("m.t", "n.t")]),
                 "missing-cert" => hb.main_hosts(vec![TlsHostInfo { hostname: "m.t".into(), cert_chain_path: "/nonexistent/cert.pem".into(), private_key_path: rt::key_path("m.t"), allowed_sni: vec![] }]),
                 "bad-key" => hb.main_hosts(vec![TlsHostInfo { hostname: "m.t".into(), cert_chain_path: rt::cert_path("m.t"), private_key_path: rt::fixtures().join("certs").join("bad.key").to_string_lossy().into_owned(), allowed_sni: vec![] }]),
-                _ => hb.main_hosts(vec![]),
+                "no-main-host" => hb.main_hosts(vec![]),
+                dup => {
+                    let (a, b) = dup.trim_start_matches("dup:").split_once('+').unwrap();
+                    let mut main = vec![hi("m.t", "m.t")];
+                    let (mut ping, mut speed, mut rp) = (vec![], vec![], vec![]);
+                    for (c, fx) in [(a, "q.t"), (b, "n.t")] {
+                        match c {
+                            "main" => main.push(hi("q.t", fx)),
+                            "ping" => ping.push(hi("q.t", fx)),
+                            "speedtest" => speed.push(hi("q.t", fx)),
+                            _ => rp.push(hi("q.t", fx)),
+                        }
+                    }
+                    hb.main_hosts(main).ping_hosts(ping).speedtest_hosts(speed).reverse_proxy_hosts(rp)
+                }
             };
             let th = hb.build().map_err(|e| format!("{e:?}"))?;
             let auth: Option<std::sync::Arc<dyn Authenticator>> = if creds { Some(std::sync::Arc::new(RegistryBasedAuthenticator::new(settings.get_clients()))) } else { None };
@@ -416,7 +445,7 @@ pub fn run(tier: Tier) -> i32 {
     rep.sub.push(json!({"sub":"wizard-roundtrip","pairs":wz_pairs.len(),"completed":r.completed}));
 
     // (C) start-up truth table
-    let total = 2 * 4 * 2 * 8 * 5 * 6;
+    let total = 2 * 4 * 2 * 8 * 5 * 11;
     let r = sweep_dyn(total, 16, Duration::from_secs(1500), rt::workers(), |i| startup_case(&dir, i));
     rep.add("evaluations", r.evaluations);
     classes.extend(r.classes.keys().map(|k| format!("startup:{k}")));
